@@ -122,6 +122,10 @@ func c11Template(r *Rng, hist map[string]int) string {
 	case 13:
 		hist["shape:futures-in-let-bindings-while-later-bindings-are-written"]++
 		return fmt.Sprintf("(let [x %d f1 (future (do (yield!) (* x 2))) a (+ x 1) f2 (future (do (yield!) (+ x a))) b (+ a 1) c (+ b 1)] (do (def d (+ c 1)) (+ (+ @f1 @f2) (+ (+ a b) (+ c d)))))", p)
+	case 15:
+		// a try at the very top of the program: its catch variable must not land in the shared root scope
+		hist["shape:top-level-try-catch-variable"]++
+		return fmt.Sprintf("(try (throw {:v %d}) (catch e (do (sleep 1) (yield!) (get e :v))))", p)
 	default:
 		hist["shape:future-reads-parameter-scope-while-the-call-defines-into-it"]++
 		return fmt.Sprintf("((fn [x y] (do (def fu (future (do (yield!) (* x (do (yield!) y))))) (def t1 (+ x y)) (def t2 (* t1 2)) (+ @fu t2))) %d %d)", p, q)
@@ -228,6 +232,13 @@ func runC11(tier string, seed uint64, rep *Report) {
 			rep.Violate(idx, "concurrent evaluations on one environment did not finish within 60s", listing())
 			emergencyFlush(rep)
 		}
+		// the local names every shape uses must not have become visible in the shared root scope
+		for _, local := range []string{"x", "y", "acc", "e", "e2", "n", "form", "a", "b", "c", "d", "f1", "f2", "q"} {
+			if o := w.EvalText(context.Background(), local); o.Err == nil {
+				idx := rep.Add("P n", "V n | l 0 ", "batch "+fmt.Sprint(b), true)
+				rep.Violate(idx, fmt.Sprintf("after the batch the local name %q of some evaluation is bound in the shared root environment (to %s)", local, Show(o.Val)), listing())
+			}
+		}
 		for t, p := range progs {
 			tag := "program:template"
 			if p.model {
@@ -254,7 +265,10 @@ func runC11(tier string, seed uint64, rep *Report) {
 
 // shapePick: the shapes that share a local scope between an evaluation and a future it started get a third of the weight
 func shapePick(r *Rng) int {
-	k := r.Intn(18)
+	k := r.Intn(20)
+	if k >= 18 {
+		return 15
+	}
 	if v := os.Getenv("C11_ONLY_SHAPE"); v != "" {
 		n, _ := strconv.Atoi(v)
 		return n
